@@ -25,9 +25,10 @@ p='/verif/DESIGN.md'
 s=open(p).read()
 i=s.find('## Appendix F — independently seeded changes')
 if i>=0:
-    s=s[:i].rstrip()+"\n\n"
+    k=s.find('\n## ', i+5)
+    rest = s[k+1:] if k>=0 else ''
+    s=s[:i].rstrip()+"\n\n"+tbl+("\n"+rest if rest else '')
 else:
-    s=s.rstrip()+"\n\n"
-s+=tbl
+    s=s.rstrip()+"\n\n"+tbl
 open(p,'w').write(s)
 print(len(rows),'rows')
